@@ -77,6 +77,10 @@ FORMS = {
     'BLAKE2B': (I + 'crypto.py', 'Blake2bInstruction'), 'SHA256': (I + 'crypto.py', 'Sha256Instruction'),
     'SHA512': (I + 'crypto.py', 'Sha512Instruction'), 'KECCAK': (I + 'crypto.py', 'KeccakInstruction'),
     'SHA3': (I + 'crypto.py', 'Sha3Instruction'),
+    # extension 2, phase A
+    'NEVER': (I + 'generic.py', 'NeverInstruction'), 'NAT': (I + 'arithmetic.py', 'NatInstruction'),
+    'BYTES': (I + 'arithmetic.py', 'BytesInstruction'), 'VOTING_POWER': (I + 'tezos.py', 'VotingPowerInstruction'),
+    'HASH_KEY': (I + 'crypto.py', 'HashKeyInstruction'),
 }
 
 # module-level helper functions the instruction classes call: digest key -> (file, function)
@@ -1517,6 +1521,58 @@ def from_value(cls, value):
 @classmethod
 def from_value(cls, value):
     return cls(value)
+''',
+    # ---- extension 2, phase A
+    'NEVER': '''
+@classmethod
+def execute(cls, stack, stdout, context):
+    never = stack.pop1()
+    never.assert_type_equal(NeverType)
+    return cls()
+''',
+    'NAT': '''
+@classmethod
+def execute(cls, stack, stdout, context):
+    a = stack.pop1()
+    a.assert_type_in(BytesType)
+    res = NatType.from_value(int.from_bytes(bytes(a), 'big'))
+    stack.push(res)
+    return cls(stack_items_added=1)
+''',
+    'BYTES': '''
+@classmethod
+def execute(cls, stack, stdout, context):
+    a = stack.pop1()
+    a.assert_type_in(NatType, IntType)
+    int_val = int(a)
+    signed = not isinstance(a, NatType)
+    if signed:
+        length = (8 + (int_val + (int_val < 0)).bit_length()) // 8 if int_val else 0
+    else:
+        length = (7 + int_val.bit_length()) // 8
+    byte_val = int_val.to_bytes(length, 'big', signed=signed)
+    res = BytesType.from_value(byte_val)
+    stack.push(res)
+    return cls(stack_items_added=1)
+''',
+    'VOTING_POWER': '''
+@classmethod
+def execute(cls, stack, stdout, context):
+    address = stack.pop1()
+    address.assert_type_equal(KeyHashType)
+    res = NatType.from_value(context.get_voting_power(str(address)))
+    stack.push(res)
+    return cls(stack_items_added=1)
+''',
+    'HASH_KEY': '''
+@classmethod
+def execute(cls, stack, stdout, context):
+    a = stack.pop1()
+    a.assert_type_equal(KeyType)
+    key = Key.from_encoded_key(str(a))
+    res = KeyHashType.from_value(key.public_key_hash())
+    stack.push(res)
+    return cls(stack_items_added=1)
 ''',
 }
 
